@@ -11,7 +11,7 @@ from .c07 import rename_map
 
 INFO = {
     "bounds": {
-        "quick": "trees T01 (bool), T13b (aliases), T03/T05 parts (int / string values) and tree versions adding / removing an option: pre-state with up to 3-4 free options, completed sync, one symbolic operation, sync with symbolic crash point (before any mutating file operation, or inside a write after p in {0,1,7} characters), one more symbolic operation before the rerun, rerun from a fresh instance",
+        "quick": "trees T01 (bool), T13b (aliases incl. aliased options that can disappear), T05 (string values) and tree versions adding / removing an option (thorough: + T03, T06, T07, T13): pre-state with up to 3-4 free options, completed sync, one symbolic operation, sync with symbolic crash point (before any mutating file operation, or inside a write after p in {0,1,7} characters), one more symbolic operation before the rerun, rerun from a fresh instance",
         "thorough": "more free options, all crash points, two tree-version pairs more",
     },
     "outside": ["crash = process death between two Python-level file operations or inside one write(); no fsync / power-loss reordering", "histories longer than sync, op, crashed sync, op, sync"],
